@@ -81,6 +81,38 @@ func PlusContents() []Content {
 	ptrTo("selfPointer", "#/definitions/selfP/properties/x", func(b *BundleSpec) {
 		b.Add(RootFile, P(J{"type": "object", "properties": J{"x": J{"$ref": "#/definitions/selfP/properties/x"}}}, "definitions", "selfP"))
 	})
+	ptrTo("chain3", "#/definitions/c3A/properties/x", func(b *BundleSpec) {
+		b.Add(RootFile, P(J{"type": "object", "properties": J{"x": J{"$ref": "#/definitions/c3B/properties/y"}}}, "definitions", "c3A"),
+			P(J{"type": "object", "properties": J{"y": J{"$ref": "#/definitions/c3C/items"}}}, "definitions", "c3B"),
+			P(J{"type": "array", "items": simpleObj("c3End")}, "definitions", "c3C"))
+	})
+	ptrTo("cycle3", "#/definitions/k3A/properties/x", func(b *BundleSpec) {
+		b.Add(RootFile, P(J{"type": "object", "properties": J{"x": J{"$ref": "#/definitions/k3B/properties/y"}}}, "definitions", "k3A"),
+			P(J{"type": "object", "properties": J{"y": J{"$ref": "#/definitions/k3C/properties/z"}}}, "definitions", "k3B"),
+			P(J{"type": "object", "properties": J{"z": J{"$ref": "#/definitions/k3A/properties/x"}}}, "definitions", "k3C"))
+	})
+	// a tail that runs into a cycle which does not contain its first target ("rho")
+	ptrTo("rhoChain", "#/definitions/rhoT/properties/t", func(b *BundleSpec) {
+		b.Add(RootFile, P(J{"type": "object", "properties": J{"t": J{"$ref": "#/definitions/rhoA/properties/a"}}}, "definitions", "rhoT"),
+			P(J{"type": "object", "properties": J{"a": J{"$ref": "#/definitions/rhoB/properties/b"}}}, "definitions", "rhoA"),
+			P(J{"type": "object", "properties": J{"b": J{"$ref": "#/definitions/rhoA/properties/a"}}}, "definitions", "rhoB"))
+	})
+	// the same shapes with the pointed schemas living in a vendor extension (never visited by the analyzer itself)
+	ptrTo("intoExtension", "#/x-schemas/plain", func(b *BundleSpec) {
+		b.Add(RootFile, P(simpleObj("extPlain"), "x-schemas", "plain"))
+	})
+	ptrTo("extChain", "#/x-schemas/t", func(b *BundleSpec) {
+		b.Add(RootFile, P(J{"$ref": "#/x-schemas/a"}, "x-schemas", "t"), P(J{"$ref": "#/x-schemas/end"}, "x-schemas", "a"), P(simpleObj("extEnd"), "x-schemas", "end"))
+	})
+	ptrTo("extCycle", "#/x-schemas/ca", func(b *BundleSpec) {
+		b.Add(RootFile, P(J{"$ref": "#/x-schemas/cb"}, "x-schemas", "ca"), P(J{"$ref": "#/x-schemas/ca"}, "x-schemas", "cb"))
+	})
+	ptrTo("extRho", "#/x-schemas/rt", func(b *BundleSpec) {
+		b.Add(RootFile, P(J{"$ref": "#/x-schemas/ra"}, "x-schemas", "rt"), P(J{"$ref": "#/x-schemas/rb"}, "x-schemas", "ra"), P(J{"$ref": "#/x-schemas/ra"}, "x-schemas", "rb"))
+	})
+	ptrTo("extSelf", "#/x-schemas/self", func(b *BundleSpec) {
+		b.Add(RootFile, P(J{"$ref": "#/x-schemas/self"}, "x-schemas", "self"))
+	})
 	ptrTo("intoAuxNested", AuxA+"#/definitions/auxHolder/properties/in", func(b *BundleSpec) {
 		b.Add(AuxA, P(J{"type": "object", "properties": J{"in": simpleObj("auxIn")}}, "definitions", "auxHolder"))
 	})
